@@ -22,6 +22,7 @@ import (
 	"strings"
 	"sync"
 	"sync/atomic"
+	"time"
 
 	"github.com/getkin/kin-openapi/openapi3"
 	"github.com/getkin/kin-openapi/openapi3filter"
@@ -61,20 +62,63 @@ func init() {
 
 var c14Once sync.Once
 var c14Srv *httptest.Server
-var c14Handlers sync.Map // id -> http.Handler
+var c14Handlers sync.Map // id -> *c14Entry
 var c14Seq atomic.Int64
 var c14Client, c14ClientNoKA *http.Client
+
+// one request of a case: what the handler does on it, what the callbacks reported while it was served
+type c14Step struct {
+	obs c14Obs
+	ops []any
+	bar *c14Barrier
+}
+
+type c14StepKey struct{}
+
+func c14StepOf(ctx context.Context) *c14Step {
+	st, _ := ctx.Value(c14StepKey{}).(*c14Step)
+	if st == nil {
+		return &c14Step{} // a request the harness did not send (never happens); observations are dropped
+	}
+	return st
+}
+
+// requests in flight at once: every handler waits (bounded) until all expected handlers have arrived, does
+// its calls, and waits again before returning, so that all response wrappers are alive at the same time
+type c14Barrier struct {
+	n       int32
+	arrived [2]atomic.Int32
+}
+
+func (b *c14Barrier) wait(phase int) {
+	b.arrived[phase].Add(1)
+	deadline := time.Now().Add(150 * time.Millisecond)
+	for b.arrived[phase].Load() < b.n && time.Now().Before(deadline) {
+		time.Sleep(20 * time.Microsecond)
+	}
+}
+
+type c14Entry struct {
+	h     http.Handler
+	steps []*c14Step
+}
 
 func c14Server() {
 	c14Once.Do(func() {
 		log.SetOutput(io.Discard) // the default LogFunc of the Validator prints through package log
 		c14Srv = httptest.NewUnstartedServer(http.HandlerFunc(func(w http.ResponseWriter, r *http.Request) {
-			h, ok := c14Handlers.Load(r.Header.Get("X-Verif-Case"))
+			e, ok := c14Handlers.Load(r.Header.Get("X-Verif-Case"))
 			if !ok {
 				http.Error(w, "no such case", 599)
 				return
 			}
-			h.(http.Handler).ServeHTTP(w, r)
+			ent := e.(*c14Entry)
+			i, _ := strconv.Atoi(r.Header.Get("X-Verif-Step"))
+			if i < 0 || i >= len(ent.steps) {
+				http.Error(w, "no such step", 599)
+				return
+			}
+			ent.h.ServeHTTP(w, r.WithContext(context.WithValue(r.Context(), c14StepKey{}, ent.steps[i])))
 		}))
 		c14Srv.Config.ErrorLog = log.New(io.Discard, "", 0)
 		c14Srv.Start()
@@ -155,6 +199,19 @@ func c14Template(c hx.Case) string {
 	return t
 }
 
+func c14Response(kind string) *openapi3.Response {
+	desc := "d"
+	resp := &openapi3.Response{Description: &desc}
+	if kind == "json" || kind == "hdrjson" {
+		resp.Content = openapi3.NewContentWithJSONSchema(openapi3.NewIntegerSchema())
+	}
+	if kind == "hdr" || kind == "hdrjson" {
+		resp.Headers = openapi3.Headers{"X-A": &openapi3.HeaderRef{Value: &openapi3.Header{Parameter: openapi3.Parameter{
+			Required: true, Schema: openapi3.NewIntegerSchema().NewRef()}}}}
+	}
+	return resp
+}
+
 func c14Doc(c hx.Case) *openapi3.T {
 	docm, _ := c["doc"].(map[string]any)
 	rq := c14Rq(c)
@@ -162,17 +219,7 @@ func c14Doc(c hx.Case) *openapi3.T {
 	op := &openapi3.Operation{Responses: &openapi3.Responses{}}
 	for _, e := range jlist(docm["responses"]) {
 		em := e.(map[string]any)
-		desc := "d"
-		resp := &openapi3.Response{Description: &desc}
-		kind := jstr(em, "kind")
-		if kind == "json" || kind == "hdrjson" {
-			resp.Content = openapi3.NewContentWithJSONSchema(openapi3.NewIntegerSchema())
-		}
-		if kind == "hdr" || kind == "hdrjson" {
-			resp.Headers = openapi3.Headers{"X-A": &openapi3.HeaderRef{Value: &openapi3.Header{Parameter: openapi3.Parameter{
-				Required: true, Schema: openapi3.NewIntegerSchema().NewRef()}}}}
-		}
-		op.Responses.Set(jstr(em, "key"), &openapi3.ResponseRef{Value: resp})
+		op.Responses.Set(jstr(em, "key"), &openapi3.ResponseRef{Value: c14Response(jstr(em, "kind"))})
 	}
 	if !jbool(c, "noq") {
 		op.Parameters = openapi3.Parameters{&openapi3.ParameterRef{Value: &openapi3.Parameter{
@@ -241,6 +288,19 @@ func c14Doc(c hx.Case) *openapi3.T {
 		}
 	}
 	doc.Paths.Set(c14Template(c), pi)
+	if l := jlist(docm["responses2"]); len(l) > 0 {
+		// a second operation (GET /w) with its own responses, for histories that alternate between operations
+		op2 := &openapi3.Operation{Responses: &openapi3.Responses{}}
+		for _, e := range l {
+			em := e.(map[string]any)
+			op2.Responses.Set(jstr(em, "key"), &openapi3.ResponseRef{Value: c14Response(jstr(em, "kind"))})
+		}
+		if !jbool(c, "noq") {
+			op2.Parameters = openapi3.Parameters{&openapi3.ParameterRef{Value: &openapi3.Parameter{
+				Name: "q", In: "query", Required: true, Schema: openapi3.NewIntegerSchema().NewRef()}}}
+		}
+		doc.Paths.Set("/w", &openapi3.PathItem{Get: op2})
+	}
 	if jbool(c, "decoy") {
 		doc.Paths.Set("/z", &openapi3.PathItem{Get: lax(), Post: lax()})
 	}
@@ -358,12 +418,19 @@ func c14Auth(c hx.Case) openapi3filter.AuthenticationFunc {
 	}
 }
 
-func c14Build(c hx.Case, obs *c14Obs) (http.Handler, error) {
+// c14Build builds ONE middleware chain for the case; which step a request belongs to (handler calls, where the
+// callbacks report) travels in the request context.
+func c14Build(c hx.Case) (http.Handler, error) {
 	inner := http.HandlerFunc(func(w http.ResponseWriter, r *http.Request) {
-		obs.mu.Lock()
-		obs.ran++
-		obs.mu.Unlock()
-		c14RunOps(w, jlist(c["ops"]))
+		st := c14StepOf(r.Context())
+		st.obs.mu.Lock()
+		st.obs.ran++
+		st.obs.mu.Unlock()
+		if st.bar != nil {
+			st.bar.wait(0)
+			defer st.bar.wait(1)
+		}
+		c14RunOps(w, st.ops)
 	})
 	if jstr(c, "mode") == "vh" {
 		vh, err := c14NewVH(c)
@@ -394,32 +461,31 @@ func c14Build(c hx.Case, obs *c14Obs) (http.Handler, error) {
 			}
 			return "other"
 		}
-		rec := func(k string) {
+		rec := func(ctx context.Context, k string) {
+			obs := &c14StepOf(ctx).obs
 			obs.mu.Lock()
 			obs.errs = append(obs.errs, k)
 			obs.mu.Unlock()
 		}
 		switch jstr(c, "enc") {
 		case "vee":
-			var orig error
-			vee := &openapi3filter.ValidationErrorEncoder{Encoder: func(ctx context.Context, err error, w http.ResponseWriter) {
-				rec(kindOf(orig))
-				code := http.StatusInternalServerError // as DefaultErrorEncoder: an error without a status is a 500
-				if sc, ok := err.(openapi3filter.StatusCoder); ok {
-					code = sc.StatusCode()
-				}
-				w.WriteHeader(code)
-				w.Write([]byte("V"))
-			}}
-			vh.ErrorEncoder = func(ctx context.Context, err error, w http.ResponseWriter) {
-				orig = err
-				vee.Encode(ctx, err, w)
+			vh.ErrorEncoder = func(ctx context.Context, orig error, w http.ResponseWriter) {
+				vee := &openapi3filter.ValidationErrorEncoder{Encoder: func(ctx context.Context, err error, w http.ResponseWriter) {
+					rec(ctx, kindOf(orig))
+					code := http.StatusInternalServerError // as DefaultErrorEncoder: an error without a status is a 500
+					if sc, ok := err.(openapi3filter.StatusCoder); ok {
+						code = sc.StatusCode()
+					}
+					w.WriteHeader(code)
+					w.Write([]byte("V"))
+				}}
+				vee.Encode(ctx, orig, w)
 			}
 		case "silent":
-			vh.ErrorEncoder = func(ctx context.Context, err error, w http.ResponseWriter) { rec(kindOf(err)) }
+			vh.ErrorEncoder = func(ctx context.Context, err error, w http.ResponseWriter) { rec(ctx, kindOf(err)) }
 		default:
 			vh.ErrorEncoder = func(ctx context.Context, err error, w http.ResponseWriter) {
-				rec(kindOf(err))
+				rec(ctx, kindOf(err))
 				c14RunOps(w, jlist(c["errops"]))
 			}
 		}
@@ -444,7 +510,8 @@ func c14Build(c hx.Case, obs *c14Obs) (http.Handler, error) {
 		ExcludeRequestBody: jbool(rq, "excludeBody"), ExcludeRequestQueryParams: jbool(rq, "excludeQuery"), MultiError: jbool(rq, "multi"),
 		AuthenticationFunc: c14Auth(c)}
 	opts = append(opts, openapi3filter.ValidationOptions(o))
-	recErr := func(status int, code openapi3filter.ErrCode) {
+	recErr := func(ctx context.Context, status int, code openapi3filter.ErrCode) {
+		obs := &c14StepOf(ctx).obs
 		obs.mu.Lock()
 		obs.errs = append(obs.errs, fmt.Sprintf("%d:%d", status, int(code)))
 		obs.mu.Unlock()
@@ -453,23 +520,24 @@ func c14Build(c hx.Case, obs *c14Obs) (http.Handler, error) {
 	case "default":
 	case "echo":
 		opts = append(opts, openapi3filter.OnErr(func(ctx context.Context, w http.ResponseWriter, status int, code openapi3filter.ErrCode, err error) {
-			recErr(status, code)
+			recErr(ctx, status, code)
 			w.Header().Set("X-Err", strconv.Itoa(int(code)))
 			w.WriteHeader(status)
 			w.Write([]byte("E" + strconv.Itoa(int(code))))
 		}))
 	case "silent":
 		opts = append(opts, openapi3filter.OnErr(func(ctx context.Context, w http.ResponseWriter, status int, code openapi3filter.ErrCode, err error) {
-			recErr(status, code)
+			recErr(ctx, status, code)
 		}))
 	default:
 		opts = append(opts, openapi3filter.OnErr(func(ctx context.Context, w http.ResponseWriter, status int, code openapi3filter.ErrCode, err error) {
-			recErr(status, code)
+			recErr(ctx, status, code)
 			c14RunOps(w, jlist(c["errops"]))
 		}))
 	}
 	if jstr(c, "logfn") != "default" {
 		opts = append(opts, openapi3filter.OnLog(func(ctx context.Context, message string, err error) {
+			obs := &c14StepOf(ctx).obs
 			obs.mu.Lock()
 			obs.logs = append(obs.logs, c14LogKind(message))
 			obs.mu.Unlock()
@@ -488,9 +556,12 @@ func c14Request(c hx.Case, base string) *http.Request {
 	if !jbool(c, "noq") {
 		q.Set("q", "5")
 	}
+	if jbool(c, "path2") {
+		path = "/w"
+	}
 	switch jstr(c, "route") {
 	case "nopath":
-		path = "/y" + strings.TrimPrefix(path, "/x")
+		path = "/y" + strings.TrimPrefix(strings.TrimPrefix(path, "/x"), "/w")
 	case "nomethod":
 		method = "PUT"
 	}
@@ -537,8 +608,14 @@ func c14Request(c hx.Case, base string) *http.Request {
 }
 
 func c14MayPanic(c hx.Case) bool {
-	for _, k := range []string{"ops", "errops"} {
-		for _, o := range jlist(c[k]) {
+	lists := []any{c["ops"], c["errops"]}
+	for _, st := range jlist(c["seq"]) {
+		if m, ok := st.(map[string]any); ok {
+			lists = append(lists, m["ops"])
+		}
+	}
+	for _, l := range lists {
+		for _, o := range jlist(l) {
 			m, _ := o.(map[string]any)
 			if jstr(m, "op") == "wh" {
 				if n, _ := strconv.Atoi(fmt.Sprint(m["n"])); n < 100 || n > 999 {
@@ -566,20 +643,35 @@ func c14Headers(h http.Header, server bool) [][]string {
 	return out
 }
 
-func runC14(c hx.Case) any {
-	obs := &c14Obs{}
-	h, err := c14Build(c, obs)
-	if err != nil {
-		return map[string]any{"kind": "setup-error", "error": err.Error()}
+// the requests of a case: the case itself, or — for a history {"seq": [...]} — the base case overlaid with each
+// step (route, req, ops, path2)
+func c14StepCases(c hx.Case) []hx.Case {
+	l, ok := c["seq"].([]any)
+	if !ok {
+		return []hx.Case{c}
 	}
+	out := []hx.Case{}
+	for _, st := range l {
+		x := hx.Case{}
+		for k, v := range c {
+			x[k] = v
+		}
+		if m, ok := st.(map[string]any); ok {
+			for k, v := range m {
+				x[k] = v
+			}
+		}
+		out = append(out, x)
+	}
+	return out
+}
+
+func c14ServeStep(c hx.Case, sc hx.Case, h http.Handler, st *c14Step, id string, idx int) map[string]any {
 	res := map[string]any{}
 	if jstr(c, "transport") == "server" {
-		c14Server()
-		id := strconv.FormatInt(c14Seq.Add(1), 10)
-		c14Handlers.Store(id, h)
-		defer c14Handlers.Delete(id)
-		req := c14Request(c, c14Srv.URL)
+		req := c14Request(sc, c14Srv.URL)
 		req.Header.Set("X-Verif-Case", id)
+		req.Header.Set("X-Verif-Step", strconv.Itoa(idx))
 		cl := c14Client
 		if c14MayPanic(c) {
 			cl = c14ClientNoKA
@@ -600,7 +692,8 @@ func runC14(c hx.Case) any {
 		res["kind"] = "server"
 	} else {
 		rec := httptest.NewRecorder()
-		req := c14Request(c, "http://example.com")
+		req := c14Request(sc, "http://example.com")
+		req = req.WithContext(context.WithValue(req.Context(), c14StepKey{}, st))
 		panicked := false
 		func() {
 			defer func() {
@@ -619,12 +712,68 @@ func runC14(c hx.Case) any {
 		res["panicked"] = panicked
 		res["kind"] = "recorder"
 	}
-	obs.mu.Lock()
-	res["ran"] = obs.ran
-	res["err"] = append([]string{}, obs.errs...)
-	res["logs"] = append([]string{}, obs.logs...)
-	obs.mu.Unlock()
+	st.obs.mu.Lock()
+	res["ran"] = st.obs.ran
+	res["err"] = append([]string{}, st.obs.errs...)
+	res["logs"] = append([]string{}, st.obs.logs...)
+	st.obs.mu.Unlock()
 	return res
+}
+
+func runC14(c hx.Case) any {
+	h, err := c14Build(c)
+	if err != nil {
+		return map[string]any{"kind": "setup-error", "error": err.Error()}
+	}
+	scs := c14StepCases(c)
+	steps := make([]*c14Step, len(scs))
+	par := jbool(c, "par") && len(scs) > 1
+	var bar *c14Barrier
+	if par {
+		// handlers expected to run: the steps whose route and request are fine (concurrent histories are
+		// generated in the family where that is visible in the case)
+		n := 0
+		for _, sc := range scs {
+			if jstr(sc, "route") == "ok" && jstr(sc, "req") == "ok" {
+				n++
+			}
+		}
+		bar = &c14Barrier{n: int32(n)}
+	}
+	for i, sc := range scs {
+		steps[i] = &c14Step{ops: jlist(sc["ops"]), bar: bar}
+	}
+	id := ""
+	if jstr(c, "transport") == "server" {
+		c14Server()
+		id = strconv.FormatInt(c14Seq.Add(1), 10)
+		c14Handlers.Store(id, &c14Entry{h: h, steps: steps})
+		defer c14Handlers.Delete(id)
+	}
+	outs := make([]map[string]any, len(scs))
+	if par {
+		var wg sync.WaitGroup
+		for i := range scs {
+			wg.Add(1)
+			go func(i int) {
+				defer wg.Done()
+				outs[i] = c14ServeStep(c, scs[i], h, steps[i], id, i)
+			}(i)
+		}
+		wg.Wait()
+	} else {
+		for i := range scs {
+			outs[i] = c14ServeStep(c, scs[i], h, steps[i], id, i)
+		}
+	}
+	if _, ok := c["seq"].([]any); !ok {
+		return outs[0]
+	}
+	l := []any{}
+	for _, o := range outs {
+		l = append(l, o)
+	}
+	return map[string]any{"kind": "seq", "steps": l}
 }
 
 // ---- comparison
@@ -701,6 +850,34 @@ func cmpC14(c hx.Case, impl any, reply map[string]any) hx.Verdict {
 	}
 	if jstr(im, "kind") == "setup-error" {
 		return hx.Verdict{IM: false, IS: false, Detail: "setup: " + jstr(im, "error")}
+	}
+	if jstr(im, "kind") == "seq" {
+		v := hx.Verdict{IM: true, IS: true}
+		is, ms, ss := jlist(im["steps"]), jlist(model["steps"]), jlist(spec["steps"])
+		if len(is) != len(ms) || len(is) != len(ss) {
+			return hx.Verdict{IM: false, IS: false, Detail: "history: number of answers differs"}
+		}
+		for i := range is {
+			ii, _ := is[i].(map[string]any)
+			mm, _ := ms[i].(map[string]any)
+			sp, _ := ss[i].(map[string]any)
+			sv := c14CmpOne(c, ii, mm, sp)
+			if !sv.IM || !sv.IS {
+				v.IM = v.IM && sv.IM
+				v.IS = v.IS && sv.IS
+				if v.Detail == "" {
+					v.Detail = fmt.Sprintf("request #%d of the history: %s", i+1, sv.Detail)
+				}
+			}
+		}
+		return v
+	}
+	return c14CmpOne(c, im, model, spec)
+}
+
+func c14CmpOne(c hx.Case, im, model, spec map[string]any) hx.Verdict {
+	if im == nil || model == nil || spec == nil {
+		return hx.Verdict{IM: false, IS: false, Detail: "missing observation"}
 	}
 	v := hx.Verdict{IM: true, IS: true}
 	if d := c14Diff(c, im, model, true, true); d != "" {
@@ -980,6 +1157,112 @@ func genC14(ctx *hx.Ctx, emit func(hx.Case)) {
 			}
 		}
 	}
+	// histories: sequences of requests through ONE middleware chain (what a Validator keeps between requests
+	// must not influence the next answer): every pair over a pool of steps, triples over a smaller pool
+	st := func(route, req string, path2 bool, ops ...map[string]any) map[string]any {
+		l := []any{}
+		for _, o := range ops {
+			l = append(l, o)
+		}
+		m := map[string]any{"route": route, "req": req, "ops": l}
+		if path2 {
+			m["path2"] = true
+		}
+		return m
+	}
+	xa := c14Op("set", "X-A", "1")
+	behaviours := [][]map[string]any{
+		{ct, c14Op("w", "12")},                      // valid where a JSON integer is wanted
+		{ct, c14Op("w", "x")},                       // invalid body
+		{c14Op("wh", 404), c14Op("w", "x")},         // another status
+		{},                                          // nothing at all
+		{c14Op("w", "1"), c14Op("wh", 404), c14Op("w", "2")}, // write first, late WriteHeader, pieces
+		{ct, xa, c14Op("wh", 200), c14Op("w", "7")}, // with the required response header
+		{ct, c14Op("fl"), c14Op("w", "3")},          // Flush before the first write
+		{c14Op("wh", 201)},                          // status only
+	}
+	var pool, small []map[string]any
+	for bi, b := range behaviours {
+		pool = append(pool, st("ok", "ok", false, b...), st("ok", "ok", true, b...))
+		if bi < 4 {
+			small = append(small, st("ok", "ok", false, b...))
+		}
+	}
+	pool = append(pool, st("nopath", "ok", false, ct, c14Op("w", "12")), st("ok", "missing", false, ct, c14Op("w", "12")))
+	small = append(small, st("ok", "type", false, ct, c14Op("w", "12")), st("ok", "ok", true, ct, c14Op("w", "12")))
+	two := func(d map[string]any, entries ...string) map[string]any {
+		x := map[string]any{}
+		for k, v := range d {
+			x[k] = v
+		}
+		x["responses2"] = c14DocShape(false, entries...)["responses"]
+		return x
+	}
+	seqDocs := []map[string]any{
+		two(c14DocShape(false, "200", "json"), "200", "any", "404", "json"),
+		two(c14DocShape(true, "200", "json", "404", "any"), "404", "any"),
+		two(c14DocExB(c14DocShape(true, "200", "hdrjson", "4XX", "json")), "200", "json"),
+	}
+	hist := 0
+	emitHist := func(seq []any, strict bool, doc map[string]any) {
+		hist++
+		c := c14With(base, "seq", seq, "strict", strict, "doc", doc, "ops", []any{})
+		emit(c)
+		switch hist % 8 {
+		case 0:
+			emit(c14With(c, "transport", "server"))
+		case 1:
+			emit(c14With(c, "errfn", "echo", "router", "legacy"))
+		case 2:
+			emit(c14With(c, "par", true))
+		case 3:
+			emit(c14With(c, "errfn", "ops", "errops", []any{c14Op("w", "oops"), c14Op("wh", 418)}, "logfn", "default"))
+		case 4:
+			emit(c14With(c, "par", true, "transport", "server", "errfn", "silent"))
+		}
+	}
+	for _, strict := range []bool{true, false} {
+		for _, doc := range seqDocs {
+			for _, a := range pool {
+				for _, b := range pool {
+					emitHist([]any{a, b}, strict, doc)
+				}
+			}
+		}
+		for _, doc := range seqDocs[:2] {
+			for _, a := range small {
+				for _, b := range small {
+					for _, d := range small {
+						emitHist([]any{a, b, d}, strict, doc)
+					}
+				}
+			}
+		}
+	}
+	// ValidationHandler histories: served / rejected in every order, both entries, every encoder
+	vhSteps := []map[string]any{st("ok", "ok", false, ct, c14Op("w", "12")), st("ok", "missing", false, c14Op("w", "x")),
+		st("nopath", "ok", false), st("ok", "ok", false, c14Op("wh", 404), c14Op("w", "x")), st("nomethod", "ok", false), st("ok", "type", false)}
+	for _, enc := range []string{"vee", "ops", "silent"} {
+		for _, entry := range []string{"serve", "mw"} {
+			for ai, a := range vhSteps {
+				for bi, b := range vhSteps {
+					seq := []any{a, b}
+					if (ai+bi)%3 == 0 {
+						seq = append(seq, vhSteps[(ai+2*bi+1)%len(vhSteps)])
+					}
+					c := c14With(base, "mode", "vh", "enc", enc, "entry", entry, "seq", seq, "ops", []any{}, "strict", false,
+						"errops", []any{c14Op("set", "X-B", "e"), c14Op("wh", 418), c14Op("w", "teapot")})
+					emit(c)
+					if (ai+bi)%4 == 1 {
+						emit(c14With(c, "transport", "server"))
+					}
+					if (ai+bi)%4 == 2 {
+						emit(c14With(c, "par", true))
+					}
+				}
+			}
+		}
+	}
 	// seeded random stream
 	n := 8000
 	if ctx.Thorough() {
@@ -1101,10 +1384,74 @@ func genC14(ctx *hx.Ctx, emit func(hx.Case)) {
 		}
 		emit(c)
 	}
+	// random histories (2-4 requests; random handler behaviour, route and request outcome per request)
+	nh := 1500
+	if ctx.Thorough() {
+		nh = 12000
+	}
+	for k := 0; k < nh; k++ {
+		doc := randDoc()
+		twoOps := r.Chance(50)
+		if twoOps {
+			doc["responses2"] = randDoc()["responses"]
+		}
+		seq := []any{}
+		for i, m := 0, 2+r.Intn(3); i < m; i++ {
+			s := map[string]any{"route": "ok", "req": "ok", "ops": randOps(5)}
+			if r.Chance(10) {
+				s["route"] = hx.Pick(r, []string{"nopath", "nomethod"})
+			}
+			if r.Chance(10) {
+				s["req"] = hx.Pick(r, []string{"missing", "type"})
+			}
+			if twoOps && r.Chance(50) {
+				s["path2"] = true
+			}
+			seq = append(seq, s)
+		}
+		c := c14With(base, "seq", seq, "ops", []any{}, "strict", r.Chance(65), "doc", doc,
+			"errfn", hx.Pick(r, []string{"default", "echo", "silent", "ops"}), "errops", randOps(3),
+			"logfn", hx.Pick(r, []string{"custom", "custom", "default"}),
+			"router", hx.Pick(r, []string{"gorilla", "legacy"}),
+			"transport", hx.Pick(r, []string{"recorder", "recorder", "recorder", "server"}))
+		if r.Chance(15) {
+			c["par"] = true
+		}
+		if r.Chance(12) {
+			c["mode"] = "vh"
+			c["strict"] = false
+			c["enc"] = hx.Pick(r, []string{"vee", "ops", "silent"})
+			c["entry"] = hx.Pick(r, []string{"serve", "mw"})
+		}
+		emit(c)
+	}
 }
 
 func shrinkC14(c hx.Case) []hx.Case {
 	var out []hx.Case
+	if seq, ok := c["seq"].([]any); ok {
+		if len(seq) > 1 {
+			for _, n := range dropEach(seq) {
+				out = append(out, c14With(c, "seq", n))
+			}
+		}
+		for i, st := range seq {
+			m, _ := st.(map[string]any)
+			for _, n := range dropEach(jlist(m["ops"])) {
+				x := map[string]any{}
+				for k, v := range m {
+					x[k] = v
+				}
+				x["ops"] = n
+				l := append([]any{}, seq...)
+				l[i] = x
+				out = append(out, c14With(c, "seq", l))
+			}
+		}
+		if jbool(c, "par") {
+			out = append(out, c14With(c, "par", false))
+		}
+	}
 	for _, k := range []string{"ops", "errops"} {
 		if l, ok := c[k].([]any); ok {
 			for _, n := range dropEach(l) {
@@ -1115,18 +1462,24 @@ func shrinkC14(c hx.Case) []hx.Case {
 		}
 	}
 	if d, ok := c["doc"].(map[string]any); ok {
-		for _, n := range dropEach(jlist(d["responses"])) {
-			if len(n) == 0 {
-				continue
+		docWith := func(k string, v any) hx.Case {
+			n := map[string]any{}
+			for a, b := range d {
+				n[a] = b
 			}
-			x := cloneCase(c)
-			x["doc"] = map[string]any{"responses": n, "includeStatus": d["includeStatus"]}
-			out = append(out, x)
+			n[k] = v
+			return c14With(c, "doc", n)
+		}
+		for _, k := range []string{"responses", "responses2"} {
+			for _, n := range dropEach(jlist(d[k])) {
+				if len(n) == 0 {
+					continue // an operation keeps at least one response (a document without any is invalid)
+				}
+				out = append(out, docWith(k, n))
+			}
 		}
 		if jbool(d, "includeStatus") {
-			x := cloneCase(c)
-			x["doc"] = map[string]any{"responses": d["responses"], "includeStatus": false}
-			out = append(out, x)
+			out = append(out, docWith("includeStatus", false))
 		}
 	}
 	if rq, ok := c["rq"].(map[string]any); ok {
